@@ -111,16 +111,21 @@ func loopsOf(fn *ssa.Function) []*Loop {
 func enclosingLoop(loops []*Loop, b *ssa.BasicBlock) *Loop {
 	var best *Loop
 	for _, l := range loops {
-		if !l.Header.Dominates(b) {
-			continue
-		}
 		in := l.Body[b]
 		if !in {
-			in = true
+			// loops whose header decides between "next iteration" and "done" (range / conditional loops):
+			// the iteration is everything dominated by the body entry.
+			var bodyEntry *ssa.BasicBlock
+			hasExit := false
 			for _, s := range l.Header.Succs {
-				if !l.Body[s] && s.Dominates(b) {
-					in = false
+				if l.Body[s] {
+					bodyEntry = s
+				} else {
+					hasExit = true
 				}
+			}
+			if hasExit && bodyEntry != nil && bodyEntry != l.Header && bodyEntry.Dominates(b) {
+				in = true
 			}
 		}
 		if in && (best == nil || len(l.Body) < len(best.Body)) {
